@@ -66,10 +66,10 @@ type shared18 struct {
 	// not valid premultiplied colours, some look like gradients. Colour helpers
 	// receive pointers to it and to rawReg and must only read them.
 	rawPal, rawReg *[64]color.RGBA
-	stops  []generate.GradientStop
-	paths  []string
-	mdPath *mdicons.Path
-	circ   []mdicons.Circle
+	stops          []generate.GradientStop
+	paths          []string
+	mdPath         *mdicons.Path
+	circ           []mdicons.Circle
 	// opts is a shared, read-only option table with spare capacity; tasks pass prefix views of it
 	opts []decode.DecodeOption
 }
